@@ -103,6 +103,7 @@ func checkTagTable(p *Program, r *Report) {
 	why := ""
 	nEnt := 0
 	maxSeen := map[string]bool{}
+	maxAllOK, maxWhy := true, ""
 	for _, o := range outs {
 		if o.Kind == "stuck" {
 			r.Undecide(rule, "readTagTable extractable", p.Pos(o.Pos), "not extractable: "+o.Why)
@@ -195,12 +196,30 @@ func checkTagTable(p *Program, r *Report) {
 			if !found {
 				copyOK, why = false, "the bulk read length is "+trunc(n.Key(), 100)+", which is not (offset+size of some entry) − tag data offset"
 			}
+			// … and on THIS path it reaches the end of every entry (it is the maximum, whichever entry that is)
+			if found && k <= 2 {
+				var plain []*BoolVal
+				for _, c := range o.St.conds {
+					cc := *c
+					cc.Src, cc.Exact = nil, nil
+					plain = append(plain, &cc)
+				}
+				facts := e.factsOf(plain)
+				for j := 0; j < k; j++ {
+					ej := e.beU32(formInt(int64(8 + 12*j))).Add(e.beU32(formInt(int64(12 + 12*j))))
+					if ok, _ := e.proveGE0(end.Sub(ej), facts); !ok {
+						maxAllOK = false
+						maxWhy = fmt.Sprintf("on a path with %d table entries the tag data read ends at %s, which the path's conditions do not show to reach the end of entry %d (offset+size): a tag laid out after the others is cut off", k, trunc(end.Key(), 80), j)
+					}
+				}
+			}
 		}
 		_ = u32
 	}
 	r.Check(entOK && nEnt > 0, rule, "entries", pos, fmt.Sprintf("%d table entries on all explored paths: signature, offset, size = three BE32 at 132+12j; bytes = tagData[offset − (132+12·count) : +size] under its own signature", nEnt), why)
 	r.Check(freshOK, rule, "storage", pos, "the bytes the tag table aliases live in storage allocated by this call and handed to nothing else (each profile owns its tag data)", freshWhy)
 	r.Check(copyOK, rule, "bulk read", pos, "tag data is read from right after the table; its length is (offset+size of the furthest entry) − (132 + 12·count)", why)
+	r.Check(maxAllOK, rule, "bulk read covers every entry", pos, "on every explored path with one or two entries the end of the tag data read is >= offset+size of each entry (integer linear arithmetic over the path's conditions)", maxWhy)
 	both := maxSeen["0/2"] && maxSeen["1/2"]
 	r.Check(both, rule, "furthest entry is any entry", pos, "with two entries, either one can determine the end of tag data (it is the maximum, not the last or the first)", fmt.Sprintf("with two table entries only %v determine the end of the tag data: tag data laid out in a different order than the table is truncated", keysOf(maxSeen)))
 	r.Check(zeroOK, rule, "zero tags", pos, "a table with zero tags succeeds without reading tag data", "a profile with zero tags does not succeed cleanly (length underflow)")
